@@ -203,4 +203,84 @@ theorem doomed_of_exact (U : Bytes) (B : Nat) (prog : List Phase) (hE : Exact U 
         intro j hj
         exact hE.1.2 j (by omega)
 
+
+/-! ## after the loss the queue content is irrelevant -/
+
+/-- the read goroutine is armed and the program still has to read: no hypothesis on `q` -/
+def ArmedRead (s : St) (o : Op) : Prop := Armed s ∧ hasRead o.prog = true
+
+theorem armedRead_stepInv : StepInv ArmedRead := by
+  refine ⟨?_, ?_, ?_⟩
+  · intro s o h
+    rw [ArmedRead, rstep_armed s h.1]; exact h
+  · intro s s' o o' h hs
+    obtain ⟨ha, hr⟩ := h
+    rcases ostep_inl s s' o o' hs with ⟨b, react, rest, hp, hw, ho⟩ | ⟨P, rest, hp, hrd, ho⟩ |
+      ⟨P, rest, c, hp, hrd, hP, ho⟩ | ⟨P, rest, c, hp, hrd, hP, ho⟩
+    · obtain ⟨_, _, _, h4, _⟩ := chWrite_ok s s' b react hw
+      subst ho
+      rw [hp] at hr
+      exact ⟨by unfold Armed at *; rw [h4]; exact ha, by simpa [hasRead] using hr⟩
+    · obtain ⟨_, hrun, _⟩ := chRead_nil s s' hrd
+      unfold Armed at ha; rw [hrun] at ha; simp at ha
+    · obtain ⟨hrun, _, _⟩ := chRead_data s s' c hrd
+      unfold Armed at ha; rw [hrun] at ha; simp at ha
+    · obtain ⟨hrun, _, _⟩ := chRead_data s s' c hrd
+      unfold Armed at ha; rw [hrun] at ha; simp at ha
+  · intro s o h hp
+    have := h.2
+    rw [hp] at this
+    simp [hasRead] at this
+
+/-- after EOF the read goroutine has exited for good: whatever the operation does, and whatever
+    it returns, the next operation finds it exited again -/
+theorem chWrite_rd (s : St) (b : Bytes) (react : List Bytes) : (chWrite s b react).2.rd = s.rd := by
+  unfold chWrite
+  split
+  · rfl
+  · split <;> rfl
+
+theorem chRead_exited (s : St) (h : s.rd = .exited) : chRead s = (.err .connection, s) := by
+  unfold chRead
+  simp [h]
+
+theorem exited_ostep (s : St) (o : Op) (h : s.rd = .exited) : (ostep s o).1.rd = .exited := by
+  rcases hs : ostep s o with ⟨s', o' | r⟩
+  · simp only
+    rcases ostep_inl s s' o o' hs with ⟨b, react, rest, _, hw, _⟩ | ⟨P, rest, _, hrd, _⟩ |
+      ⟨P, rest, c, _, hrd, _, _⟩ | ⟨P, rest, c, _, hrd, _, _⟩
+    · have := chWrite_rd s b react
+      rw [hw] at this
+      simp only at this
+      rw [this]; exact h
+    · rw [chRead_exited s h] at hrd; simp at hrd
+    · rw [chRead_exited s h] at hrd; simp at hrd
+    · rw [chRead_exited s h] at hrd; simp at hrd
+  · simp only
+    rcases ostep_inr s s' o r hs with ⟨_, _, hs'⟩ | ⟨b, react, rest, _, hw, _⟩ | ⟨P, rest, e, _, hrd, _⟩
+    · rw [hs']; exact h
+    · have := chWrite_rd s b react
+      rw [hw] at this
+      simp only at this
+      rw [this]; exact h
+    · rw [chRead_exited s h] at hrd
+      simp at hrd
+      rw [← hrd.2]; exact h
+
+theorem exited_run (sched : List Actor) (s : St) (o : Op) (h : s.rd = .exited) :
+    (run sched s o).1.rd = .exited := by
+  induction sched generalizing s o with
+  | nil => exact h
+  | cons a t ih =>
+    cases a with
+    | rdr =>
+      simp only [run]
+      exact ih _ o (by rw [rstep_armed s (Or.inr h)]; exact h)
+    | op =>
+      simp only [run]
+      have := exited_ostep s o h
+      rcases hs : ostep s o with ⟨s2, o2 | r⟩
+      · rw [hs] at this; simp only; exact ih s2 o2 this
+      · rw [hs] at this; exact this
+
 end Scrapli.Loss
